@@ -17,6 +17,7 @@ def pIn : List String → Option In
   | ["pingTick"] => some .pingTick
   | ["pong:1"] => some (.pong true)
   | ["pong:0"] => some (.pong false)
+  | ["pongRaises"] => some .pongRaises
   | ["keysFlushed"] => some .keysFlushed
   | ["loop"] => some .loop
   | ["appSend"] => some .appSend
@@ -30,6 +31,7 @@ def lifeOut : Out → String
   | .authAttempt p => s!"authAttempt:{if p then 1 else 0}" | .authed => "authed" | .entityFailure => "entityFailure"
   | .entityStreamError k => s!"entityStreamError:{errName k}" | .written d => s!"written:{d}" | .dropped => "dropped"
   | .pingSent => "pingSent" | .raisedNotImplemented => "raised:NotImplementedError"
+  | .appRaised => "raised:RuntimeError"
 
 def lifeStep (s : St) : List String → St × String
   | ["reset", r, p] => ({ reconnectOpt := r == "1", passive := p == "1" }, "ok")
